@@ -91,6 +91,16 @@ def keys(params):
         k2 = list(ev2.resulting_metric_keys)
         if k2 != ref_keys:
             bad.append(f"resulting_metric_keys depends on the first call ({first}): {len(k2)} keys instead of {len(ref_keys)}; missing {[k for k in ref_keys if k not in k2][:5]}")
+    # the advertised keys are the keys of the evaluator's OWN results, whatever other evaluators exist in the process
+    from panoptica import Panoptica_Evaluator, InputType
+    from panoptica.metrics import Metric
+    evs = [Panoptica_Evaluator(expected_input=InputType.MATCHED_INSTANCE, instance_metrics=im, global_metrics=gm)
+           for im, gm in (([Metric.DSC, Metric.IOU], [Metric.DSC]), ([Metric.DSC], [Metric.IOU, Metric.DSC]), ([Metric.DSC], [Metric.DSC]))]
+    adv = [list(e_.resulting_metric_keys) for e_ in evs]
+    for e_, k_ in zip(evs, adv):
+        own = list(e_.evaluate(a.copy(), a.copy(), verbose=False)["ungrouped"][0].to_dict().keys())
+        if sorted(own) != sorted(k_):
+            bad.append(f"an evaluator advertises {len(k_)} keys but its own result has {len(own)}: differing {sorted(set(own) ^ set(k_))[:4]} (keys shared with another evaluator?)")
     wc = WC_D4 if bad and all("gained" in b or "mutating" in b for b in bad) else None
     return {"violated": bool(bad), "problems": bad[:4], "witness_class": wc}
 
@@ -167,6 +177,25 @@ def bounded(params):
             cfg1 = os.path.join(d, "cfg1.yaml"); ev.save_to_config(cfg1)
             if open(cfg1).read() != cfg_text0 and len(failures) < 8:
                 failures.append({"input": {"history": h}, "problems": ["saved configuration changed through use"], "replay_kind": "c15.history"})
+    # more matched instances than CPU cores, and not a multiple of the core count: real worker pool vs serial map
+    import os as _os
+    n_inst = 2 * (_os.cpu_count() or 4) + 3
+    big_p = np.zeros(3 * n_inst + 2, np.uint16); big_r = np.zeros_like(big_p)
+    for i_ in range(n_inst):
+        big_p[3 * i_ + 1: 3 * i_ + 3] = i_ + 1
+        big_r[3 * i_ + 1: 3 * i_ + 2 + (i_ % 2)] = i_ + 1
+    F.Pool, E.Pool = real_pools
+    try:
+        with_pool = _results(_mk("MATCHED_INSTANCE", False), big_p.copy(), big_r.copy())
+    except Exception as e_:
+        with_pool = {"raised": f"{type(e_).__name__}: {e_}"[:120]}
+    serial_pools()
+    serial = _results(_mk("MATCHED_INSTANCE", False), big_p.copy(), big_r.copy())
+    evals += 1
+    if serial.get("tp") != n_inst and len(failures) < 8:
+        failures.append({"input": {"instances": n_inst, "cores": _os.cpu_count()}, "problems": [f"{n_inst} matched instances (every label present in both maps) but tp={serial.get('tp')}, fn={serial.get('fn')}"], "replay_kind": "c15.options"})
+    if with_pool != serial and len(failures) < 8:
+        failures.append({"input": {"instances": n_inst, "cores": _os.cpu_count()}, "problems": [f"{n_inst} matched instances: the worker pool gives a different result than the serial map: " + str({k: (serial.get(k), with_pool.get(k)) for k in serial if serial.get(k) != with_pool.get(k)})[:300]], "replay_kind": "c15.options"})
     kr = keys({})
     evals += 1
     for pb in kr["problems"][:2]:
